@@ -5,7 +5,8 @@ generators and case counts (quick, thorough), anchored source files."""
 PROPS = {
     "C01": dict(
         coq=["Props.C01"],
-        fams=[("fam_ans", "gen_stack", 600, 40000), ("fam_ans", "gen_free", 150, 5000)],
+        fams=[("fam_ans", "gen_stack", 600, 40000), ("fam_ans", "gen_free", 150, 5000),
+              ("fam_ans", "gen_sweep", 16, 0)],
         anchors=["src/stream/stack.rs", "src/stream/mod.rs", "src/backends.rs", "src/lib.rs"],
         rule="ans history with >=1 decode and >=1 word flushed to bulk (observed in exported words / raw parts)",
         level_text="Machine-checked Coq theorems (unbounded: every state satisfying the documented invariant, every "
